@@ -13,6 +13,7 @@ import Proofs.Protocol
 import Proofs.SeqInv
 import Proofs.RefsInv
 import Properties.C02
+import Proofs.AddSpec
 import Mathlib.Tactic.Ring
 namespace Pulser
 namespace C07
@@ -66,8 +67,10 @@ theorem pulse_phase (c : ChanState) (p : PulseIn) (ref : Rat) (pr : PulseRec)
     · cases h
     · split at h
       · cases h
-      · injection h with h; subst h
-        exact ⟨rfl, fmtPhase_eq_mod _⟩
+      · split at h
+        · cases h
+        · injection h with h; subst h
+          exact ⟨rfl, fmtPhase_eq_mod _⟩
 
 /-- ... and, without drift correction, that is the phase of the slot appended to the timeline. -/
 theorem scheduled_phase {ms : Option Nat} {c : ChanState} {others : List ChanState}
@@ -141,6 +144,50 @@ theorem mapRefs_getRefs_other (s : SeqState) (b b' : Basis) (qs : List Nat) (f :
   cases hg : s.getRefs b with
   | none => rfl
   | some l => exact setRefs_getRefs_other s b b' _ hb
+
+/-- **At the level of the API call**: when `seq.add(pulse, channel, protocol)` succeeds on a
+sequence satisfying the timeline invariant (every reachable one), the pulse instruction appended
+to the channel carries the programmed phase plus the channel's phase reference — the common
+reference of its target atoms in the channel's basis, as it was before the call — reduced to
+`[0, 2π)`, keeps its post-phase-shift, and does not start before the time of the latest phase
+shift of any of its targets. -/
+theorem add_phase_and_barrier (s : SeqState) (hi : SeqInv s) (p : PulseIn) (n : ChName)
+    (proto : Protocol) (hok : (addCore s p n (some proto) none).err = none) :
+    ∃ (c c' : ChanState) (last slot : Slot) (pr : PulseRec),
+      s.getChan n = some c ∧ c.last = .ok last ∧
+      (addCore s p n (some proto) none).st.getChan n = some c' ∧ c'.last = .ok slot ∧
+      slot.kind = .pulse pr ∧ pr.post = p.post ∧
+      pr.phase = fmtPhase (p.phase +
+        (match (if c.cfg.isDmm = true then none else (s.lastPhases c.cfg.basis last.targets).head?) with
+         | some r => r | none => 0)) ∧
+      ∀ b ∈ s.lastTimes c.cfg.basis last.targets, b ≤ slot.ti := by
+  obtain ⟨c, c', last, slot, pr0, ref, hgc, hl, href, hpr, hm, hget, hl'⟩ := addCore_ok_spec hi hok
+  have hci := hi c (getChan_mem hgc).1
+  obtain ⟨p', hk, hph, hpost⟩ := scheduled_phase (makeNext_blk_indep hm)
+  have hbar := barrier hci.1 hl hm
+  refine ⟨c, c', last, slot, p', hgc, hl, hget, hl', hk, ?_, ?_, hbar⟩
+  · rw [hpost]
+    unfold validateAndAdjust at hpr
+    split at hpr
+    · cases hpr
+    · split at hpr
+      · cases hpr
+      · split at hpr
+        · cases hpr
+        · split at hpr
+          · cases hpr
+          · injection hpr with hpr; subst hpr; rfl
+  · rw [hph, ← href]
+    unfold validateAndAdjust at hpr
+    split at hpr
+    · cases hpr
+    · split at hpr
+      · cases hpr
+      · split at hpr
+        · cases hpr
+        · split at hpr
+          · cases hpr
+          · injection hpr with hpr; subst hpr; rfl
 
 /-- **Bases are separate**: a phase shift in basis `b` leaves the references of every other
 basis untouched. -/
